@@ -1,6 +1,6 @@
 (* Proofs about the parser model (Model/Parser.v). *)
 From PG Require Import Lib.Strs Model.AllOf Model.Parser Proofs.AllOf Gen.T_C02.
-From Coq Require Import Lia Arith PeanoNat.
+From Coq Require Import Lia Arith PeanoNat Permutation.
 
 (* ------------------------------------------------------------------ the declared semantics is fuel-monotone,
    hence a (partial) function of the document alone *)
@@ -342,7 +342,7 @@ Section Mono.
       - pose proof (le_resolve_ref n s) as H. destruct (resolve_ref S rec n s) as [r s1]. simpl in H.
         destruct name as [nm|]; [|exact H]. destruct (nonempty nm); [|exact H].
         destruct (match i_name r with Some rn => _ | None => false end); [exact H|].
-        destruct (registered nm s1); [exact H|]. simpl. eapply le_trans; [exact H | apply le_reg].
+        destruct (registered nm s1 && negb (cut_off nm s1)); [exact H|]. simpl. eapply le_trans; [exact H | apply le_reg].
       - pose proof (le_parse_props ps (match name with Some n => if nonempty n then Some (cls n) else None | None => None end) [] s) as H.
         destruct (parse_props S rec ps _ [] s) as [props s1]. simpl in H.
         eapply le_trans; [exact H|]. eapply le_trans; [apply le_bump | apply le_finish].
@@ -402,11 +402,11 @@ Section Mono.
     eapply le_trans; [|apply IH]. eapply le_trans; [apply le_set_state | apply mono_parse_schema].
   Qed.
 
-  Lemma le_build_iter : forall k fuel s, le s (build_iter md S k fuel s).
+  Lemma le_build_iter : forall k fuel pend prev s, le s (build_iter md S k fuel pend prev s).
   Proof.
-    induction k as [|k IH]; intros fuel s; cbn [build_iter]; [apply le_refl|].
-    destruct (filter (pending_b s) S) as [|p l]; [apply le_refl|].
-    apply (le_trans _ (build_pass md S fuel (p :: l) s)); [apply le_build_pass | apply IH].
+    induction k as [|k IH]; intros fuel pend prev s; cbn [build_iter]; [apply le_refl|].
+    destruct (is_nil pend || same_names prev pend); [apply le_refl|].
+    apply (le_trans _ (build_pass md S fuel pend s)); [apply le_build_pass | apply IH].
   Qed.
 
   Lemma le_build : forall fuel s, le s (build md S fuel s).
@@ -1029,25 +1029,26 @@ Section Final.
     apply IH; assumption.
   Qed.
 
-  Lemma build_iter_ok : forall k fuel s,
-    nodup_strs (map fst S) = true ->
-    Inv S s -> events (build_iter md S k fuel s) = [] -> oof (build_iter md S k fuel s) = false ->
-    Inv S (build_iter md S k fuel s).
+  Lemma build_iter_ok : forall k fuel pend prev s,
+    nodup_strs (map fst S) = true -> (forall x, In x pend -> In x S) ->
+    Inv S s -> events (build_iter md S k fuel pend prev s) = [] -> oof (build_iter md S k fuel pend prev s) = false ->
+    Inv S (build_iter md S k fuel pend prev s).
   Proof.
-    induction k as [|k IH]; intros fuel s ND HI He Ho; cbn [build_iter] in *; [exact HI|].
-    destruct (filter (pending_b s) S) as [|p l] eqn:Ef; [exact HI|].
-    pose proof (le_build_iter md S k fuel (build_pass md S fuel (p :: l) s)) as (L1 & L2 & _).
+    induction k as [|k IH]; intros fuel pend prev s ND Hsub HI He Ho; cbn [build_iter] in *; [exact HI|].
+    destruct (is_nil pend || same_names prev pend); [exact HI|].
+    pose proof (le_build_iter md S k fuel (filter (cutoff_b (build_pass md S fuel pend s)) S) (Some pend)
+                  (build_pass md S fuel pend s)) as (L1 & L2 & _).
     apply IH; try assumption.
-    apply build_pass_ok; auto.
-    intros n nd Hin. apply nodup_alookup; [exact ND|].
-    rewrite <- Ef in Hin. apply filter_In in Hin. apply Hin.
+    - intros x Hx. apply filter_In in Hx. apply Hx.
+    - apply build_pass_ok; auto.
+      intros n nd Hin. apply nodup_alookup; [exact ND | apply Hsub; exact Hin].
   Qed.
 
   Lemma build_ok : forall fuel s,
     nodup_strs (map fst S) = true ->
     Inv S s -> events (build md S fuel s) = [] -> oof (build md S fuel s) = false ->
     Inv S (build md S fuel s).
-  Proof. intros. apply build_iter_ok; assumption. Qed.
+  Proof. intros. apply build_iter_ok; auto. Qed.
 
   Lemma Inv_st0 : Inv S st0.
   Proof. split; [intros k e []|reflexivity]. Qed.
@@ -1701,19 +1702,22 @@ Section Static.
     events s = [] /\ oof s = false /\ all_present S s = true.
   Proof.
     assert (ND : nodup_strs (map fst S) = true) by (unfold core_spec in HS; apply andb_true_iff in HS; apply HS).
-    unfold parse_doc, build.
-    destruct (length S) as [|k] eqn:EL.
-    { destruct S; [|discriminate]. simpl. auto. }
-    cbn [build_iter].
-    assert (FA : filter (pending_b st0) S = S) by (apply filter_all; intros [n nd] _; reflexivity).
-    rewrite FA. destruct S as [|p0 l0] eqn:ES; [discriminate|]. rewrite <- ES in *.
+    unfold parse_doc, build. rewrite Nat.add_1_r. cbn [build_iter].
+    destruct S as [|p0 l0] eqn:ES; [simpl; auto|]. rewrite <- ES in *.
+    assert (NN : is_nil S || same_names None S = false) by (rewrite ES; reflexivity).
+    rewrite NN.
     destruct (build_pass_tr S st0 (fun n nd Hin => nodup_alookup S n nd ND Hin) rest_st0) as (R1 & _ & Al).
     set (s1 := build_pass md S (fuel_for md) S st0) in *.
-    assert (Stop : forall k', build_iter md S k' (fuel_for md) s1 = s1).
-    { intros [|k']; [reflexivity|]. cbn [build_iter].
-      rewrite (filter_none (pending_b s1) S); [reflexivity|].
-      intros [n nd] Hin. unfold pending_b. simpl fst.
-      destruct R1 as (_ & _ & _ & C1 & _). rewrite (unparsed_clean n s1 C1), (Al n nd Hin). reflexivity. }
+    assert (FN : filter (cutoff_b s1) S = []).
+    { apply filter_none. intros [n nd] _. unfold cutoff_b, cut_off. simpl fst.
+      destruct R1 as (_ & _ & _ & [C1 _] & _).
+      assert (X : forall k, match alookup k (parsed s1) with Some e => i_depthm e | None => false end = false).
+      { intros k. destruct (alookup k (parsed s1)) as [e|] eqn:E; [|reflexivity].
+        destruct (C1 _ _ (alookup_In _ _ _ E)) as [(? & _ & _ & (_ & _ & Dm & _) & _) _]. exact Dm. }
+      rewrite !X. reflexivity. }
+    rewrite FN.
+    assert (Stop : build_iter md S (length S) (fuel_for md) [] (Some S) s1 = s1).
+    { rewrite ES. reflexivity. }
     rewrite Stop. destruct R1 as (A & O & _).
     split; [exact A|]. split; [exact O|].
     unfold all_present. apply forallb_forall. intros [n nd] Hin. simpl.
@@ -1770,3 +1774,85 @@ Example alias_regression :
   /\ model_fields (parse_doc default_max_depth spec_alias) sAliasTwo
      = Some [(sident, true, TPrim PInteger); (slabel, false, TPrim PString)].
 Proof. vm_compute. repeat split. Qed.
+
+(* ================================================================== order independence (what C19 needs) ============ *)
+Lemma perm_alookup : forall (S S' : spec),
+  nodup_strs (map fst S) = true -> nodup_strs (map fst S') = true -> Permutation S S' ->
+  forall n, alookup n S = alookup n S'.
+Proof.
+  intros S S' ND ND' P n.
+  destruct (alookup n S) as [v|] eqn:E.
+  - apply alookup_In in E. apply (Permutation_in _ P) in E.
+    symmetry. apply nodup_alookup; assumption.
+  - destruct (alookup n S') as [v'|] eqn:E'; [|reflexivity].
+    apply alookup_In in E'. apply (Permutation_in _ (Permutation_sym P)) in E'.
+    rewrite (nodup_alookup _ _ _ ND E') in E. discriminate.
+Qed.
+
+Lemma decl_members_ext : forall (r1 r2 : node -> option dmember),
+  (forall x, r1 x = r2 x) -> forall l acc, decl_members r1 l acc = decl_members r2 l acc.
+Proof.
+  intros r1 r2 H. induction l as [|x l IH]; intros acc; simpl; [reflexivity|].
+  rewrite H. destruct (r2 x); [apply IH | reflexivity].
+Qed.
+
+Lemma decl_node_ext : forall (S S' : spec), (forall n, alookup n S = alookup n S') ->
+  forall f nd, decl_node f S nd = decl_node f S' nd.
+Proof.
+  intros S S' H. induction f as [|f IH]; intros nd; [reflexivity|].
+  destruct nd; try reflexivity.
+  - simpl. rewrite H. destruct (alookup n S'); [apply IH | reflexivity].
+  - change (decl_members (decl_node f S) l [] = decl_members (decl_node f S') l []).
+    apply decl_members_ext. exact IH.
+Qed.
+
+Lemma declared_f_ext : forall (S S' : spec), (forall n, alookup n S = alookup n S') ->
+  forall f n, declared_f f S n = declared_f f S' n.
+Proof.
+  intros S S' H f n. unfold declared_f. rewrite H. destruct (alookup n S'); [|reflexivity].
+  rewrite (decl_node_ext S S' H). reflexivity.
+Qed.
+
+Lemma core_nodup : forall S, core_spec S = true -> nodup_strs (map fst S) = true.
+Proof. intros S H. unfold core_spec in H. apply andb_true_iff in H. apply H. Qed.
+
+(* on a clean run every registry key is a declared name *)
+Lemma registry_keys_declared : forall md S,
+  core_spec S = true ->
+  events (parse_doc md S) = [] -> oof (parse_doc md S) = false ->
+  forall n e, alookup n (parsed (parse_doc md S)) = Some e -> In n (map fst S).
+Proof.
+  intros md S HS He Ho n e Hl.
+  assert (HI : Inv S (parse_doc md S)).
+  { unfold parse_doc. apply build_ok; [exact HS | apply core_nodup; exact HS | apply Inv_st0 | exact He | exact Ho]. }
+  destruct HI as [HI _]. destruct (HI _ _ (alookup_In _ _ _ Hl)) as [(nd & Hnd & _) _].
+  apply alookup_In in Hnd. apply (in_map fst) in Hnd. exact Hnd.
+Qed.
+
+(* the models do not depend on the order in which the schemas are declared *)
+Theorem order_independent : forall md S S' rk rk',
+  core_spec S = true -> ranked_b rk S = true -> depth_ok rk S md = true ->
+  core_spec S' = true -> ranked_b rk' S' = true -> depth_ok rk' S' md = true ->
+  Permutation S S' ->
+  forall n, model_fields (parse_doc md S) n = model_fields (parse_doc md S') n.
+Proof.
+  intros md S S' rk rk' HS HR HD HS' HR' HD' P n.
+  pose proof (perm_alookup S S' (core_nodup S HS) (core_nodup S' HS') P) as EQ.
+  destruct (acyclic_clean md S rk HS HR HD) as (He & Ho & _).
+  destruct (acyclic_clean md S' rk' HS' HR' HD') as (He' & Ho' & _).
+  destruct (mem_str n (map fst S)) eqn:M.
+  - apply mem_str_In in M.
+    assert (M' : In n (map fst S')) by (apply (Permutation_in _ (Permutation_map fst P)); exact M).
+    destruct (C02_acyclic md S rk HS HR HD n M) as (e & El & _ & f & Hf).
+    destruct (C02_acyclic md S' rk' HS' HR' HD' n M') as (e' & El' & _ & f' & Hf').
+    unfold model_fields. rewrite El, El'. f_equal.
+    rewrite <- (declared_f_ext S S' EQ) in Hf'.
+    exact (declared_f_functional _ _ _ _ _ _ Hf Hf').
+  - unfold model_fields.
+    destruct (alookup n (parsed (parse_doc md S))) as [e|] eqn:El.
+    { apply (registry_keys_declared md S HS He Ho) in El. apply mem_str_In in El. congruence. }
+    destruct (alookup n (parsed (parse_doc md S'))) as [e'|] eqn:El'; [|reflexivity].
+    apply (registry_keys_declared md S' HS' He' Ho') in El'.
+    apply (Permutation_in _ (Permutation_map fst (Permutation_sym P))) in El'.
+    apply mem_str_In in El'. congruence.
+Qed.
